@@ -36,6 +36,8 @@ type VerifC16Async struct {
 	PeekT     time.Duration
 	JoinT     time.Duration
 	Slow      bool
+	// Stuck: a trace that was on its way never arrived (5 s): that is an observation, never noise
+	Stuck bool
 }
 
 type verifC16ACall struct {
@@ -247,6 +249,7 @@ func (v *VerifC16Async) Do(op string) string {
 			return "nocause"
 		}
 		if !v.handedOver(c) {
+			v.Stuck = true
 			return "stuck"
 		}
 		v.pendingCheck(c, pending)
@@ -324,6 +327,7 @@ func (v *VerifC16Async) Finish() (fin []string, inner []string) {
 	fin, inner = []string{}, []string{}
 	for _, c := range v.calls {
 		if (c.cause || c.certain) && !v.handedOver(c) {
+			v.Stuck = true
 			fin = append(fin, "stuck")
 			continue
 		}
